@@ -688,7 +688,10 @@ impl Packet {
                 if value.len() > 12 && value.len() < 269 {
                     header.push((value.len() - 13) as u8);
                 } else if value.len() >= 269 {
-                    let fix = (value.len() - 269) as u16;
+                    // The extended length field is 16 bits wide; longer
+                    // values cannot be represented.
+                    let fix = u16::try_from(value.len() - 269)
+                        .map_err(|_| MessageError::InvalidOptionLength)?;
                     header.push((fix >> 8) as u8);
                     header.push((fix & 0xFF) as u8);
                 }
